@@ -826,3 +826,4 @@ fn s_push_aggregate_delay() {
     kani::cover!(block > d * 3 && block < d * 4, "blocked duration between three and four network delays");
     core::mem::forget(nb);
 }
+
